@@ -435,6 +435,14 @@ class Check:
     # -- verdict
     def finish(self, trusted_base, level='proof'):
         pid = self.pid
+        if self.tier == 'thorough' and not self.proof_broken:
+            # independent re-check of the compiled property file and everything it depends on; lists the axioms they rely on
+            rc_chk, out_chk = run(['coqchk', '-silent', '-o', '-Q', '.', 'BS', f'BS.Props.{pid}'], 1500, cwd=COQ)
+            m = re.search(r'CONTEXT SUMMARY.*', out_chk, re.S)
+            self.coqchk = {'cmd': f'cd {COQ} && coqchk -silent -o -Q . BS BS.Props.{pid}', 'exit': rc_chk,
+                             'summary': ' '.join((m.group(0) if m else out_chk[-600:]).split())[:900]}
+            if rc_chk != 0:
+                self.proof_broken.append({'obligation': 'coqchk re-check of Props/%s.vo' % pid, 'detail': out_chk[-600:]})
         findings = known_findings(pid)
         new_oracle = []
         for case in self.oracle_fail:
@@ -463,6 +471,8 @@ class Check:
             rc = 1
         cov = dict(self.coverage)
         cov.setdefault('evaluations', 0)
+        if getattr(self, 'coqchk', None):
+            cov['coqchk'] = self.coqchk
         cov.update({'obligations': len(self.obligations), 'discharged': self.discharged, 'checker_cmd': self.checker_cmd,
                     'trusted_base': trusted_base, 'print_assumptions': self.print_assumptions,
                     'obligation_names': self.obligations[:400],
